@@ -6,7 +6,7 @@
 #include <string.h>
 #include <stdlib.h>
 
-typedef struct { const unsigned char *data; size_t len; int sized; int chain; } mk_block;	// chain: 0 lzma2, 1 delta+lzma2, 2 x86+lzma2, 3 arm(start_offset=4)+lzma2
+typedef struct { const unsigned char *data; size_t len; int sized; int chain; } mk_block;	// chain: 0 lzma2, 1 delta+lzma2, 2 x86+lzma2, 3 arm(start_offset=4)+lzma2, 4 lzma2 with a 64 KiB dictionary (needs more decoder memory than the others)
 typedef struct { size_t off[16], total[16], hdr[16]; int n; size_t index_off, footer_off; } mk_layout;
 
 static lzma_options_lzma mk_opt; static lzma_options_delta mk_delta = { .type = LZMA_DELTA_TYPE_BYTE, .dist = 1 };
@@ -17,7 +17,8 @@ static void mk_chain(int chain, lzma_filter *f) {
 	if (chain == 2) f[n++] = (lzma_filter){ LZMA_FILTER_X86, NULL };
 	static lzma_options_bcj mk_bcj = { .start_offset = 4 };
 	if (chain == 3) f[n++] = (lzma_filter){ LZMA_FILTER_ARM, &mk_bcj };
-	f[n++] = (lzma_filter){ LZMA_FILTER_LZMA2, &mk_opt }; f[n].id = LZMA_VLI_UNKNOWN; f[n].options = NULL;
+	static lzma_options_lzma mk_opt64; if (chain == 4) { mk_opt64 = mk_opt; mk_opt64.dict_size = 65536; }
+	f[n++] = (lzma_filter){ LZMA_FILTER_LZMA2, chain == 4 ? &mk_opt64 : &mk_opt }; f[n].id = LZMA_VLI_UNKNOWN; f[n].options = NULL;
 }
 // returns file length or 0
 static size_t mk_xz(unsigned char *out, size_t cap, const mk_block *blk, int nblk, lzma_check check, mk_layout *lay) {
